@@ -492,40 +492,71 @@ func slotRunDef(def *cmdDef, words []string, cur string) []string {
 	return out
 }
 
-// ---- the long-form fragment of one command, for the tie with Model/Pflag.v
-// case: il <names> <kinds> <words> cur
+// ---- one command, all posix word forms, for the tie with Model/Pflag.v
+// case: il <names> <kinds> <shorthands> <words> cur
 func slotFragGen(r *Rng, i int, cfg int, tier string) []string {
 	c := genCmd(r, 2, "root") // depth 2: no sub-commands
-	var names, kinds []string
+	var names, kinds, shorts []string
 	for _, f := range c.flags {
 		names = append(names, f.name)
 		kinds = append(kinds, f.kind)
+		shorts = append(shorts, f.short)
+	}
+	value := func(k int) string {
+		// a value the flag's type accepts (what a value means is not part of the slot)
+		switch kinds[k] {
+		case "b":
+			return r.Pick([]string{"true", "false", "1"})
+		case "c":
+			return r.Pick([]string{"1", "3"})
+		}
+		return r.Pick([]string{"v", "", "a=b", "true", "1", "-", "--", "-x"})
 	}
 	word := func() string {
-		switch x := r.Intn(12); {
-		case x < 5 && len(names) > 0:
+		switch x := r.Intn(14); {
+		case x < 4 && len(names) > 0:
 			k := r.Intn(len(names))
 			n := names[k]
 			switch r.Intn(4) {
 			case 0, 1:
 				return "--" + n
 			case 2:
-				// a value the flag's type accepts (what a value means is not part of the slot)
-				switch kinds[k] {
-				case "b":
-					return "--" + n + "=" + r.Pick([]string{"true", "false", "1"})
-				case "c":
-					return "--" + n + "=" + r.Pick([]string{"1", "3"})
-				}
-				return "--" + n + "=" + r.Pick([]string{"v", "", "a=b", "true", "1", "-", "--"})
+				return "--" + n + "=" + value(k)
 			default:
 				return "--" + n + "x"
 			}
-		case x < 6:
-			return "--"
-		case x < 7:
-			return r.Pick([]string{"", "--unknown", "--=x", "---x", "--unknown=1", "--hel"})
+		case x < 7 && len(names) > 0:
+			// shorthand words: -s, chains, attached and `=` values
+			w := "-"
+			for n := 1 + r.Intn(3); n > 0; n-- {
+				k := r.Intn(len(names))
+				if shorts[k] == "" {
+					continue
+				}
+				w += shorts[k]
+				if kinds[k] == "s" || kinds[k] == "l" {
+					switch r.Intn(3) {
+					case 0:
+						w += "=" + value(k)
+					case 1:
+						w += r.Pick([]string{"v", "val", "1"})
+					}
+					return w
+				}
+				if r.Chance(1, 8) {
+					w += "=" + value(k)
+					return w
+				}
+			}
+			if w == "-" || r.Chance(1, 12) {
+				w += r.Pick([]string{"", "z", "="})
+			}
+			return w
 		case x < 8:
+			return "--"
+		case x < 9:
+			return r.Pick([]string{"", "-", "--unknown", "--=x", "---x", "--unknown=1", "--hel"})
+		case x < 10:
 			return r.Pick([]string{"v", "true", "1"})
 		default:
 			return r.Pick([]string{"pos1", "pos2", "file.txt", "a=b"})
@@ -537,15 +568,15 @@ func slotFragGen(r *Rng, i int, cfg int, tier string) []string {
 	}
 	cur := ""
 	if r.Chance(2, 3) {
-		cur = word()
-		if r.Chance(1, 3) && len(cur) > 1 {
-			cur = cur[:1+r.Intn(len(cur)-1)]
-		}
-		if cur == "-" {
-			cur = "--"
-		}
-		if r.Chance(1, 4) && len(names) > 0 {
-			cur = "--" + names[r.Intn(len(names))] + "=" + r.Pick([]string{"", "t", "par"})
+		cur = r.Pick([]string{"x", "pos", "--", "--unknown", "file.txt", "a=b"})
+		if len(names) > 0 {
+			k := r.Intn(len(names))
+			switch r.Intn(4) {
+			case 0:
+				cur = "--" + names[k][:r.Intn(len(names[k])+1)]
+			case 1:
+				cur = "--" + names[k] + "=" + r.Pick([]string{"", "t", "par"})
+			}
 		}
 	}
 	il := "1"
@@ -555,6 +586,7 @@ func slotFragGen(r *Rng, i int, cfg int, tier string) []string {
 	cf := []string{il}
 	cf = append(cf, strList(names)...)
 	cf = append(cf, strList(kinds)...)
+	cf = append(cf, strList(shorts)...)
 	cf = append(cf, strList(words)...)
 	cf = append(cf, cur)
 	note("words=" + strconv.Itoa(len(words)))
@@ -565,11 +597,12 @@ func slotFragRun(cf []string) []string {
 	il := cf[0] == "1"
 	names, rest := takeList(cf[1:])
 	kinds, rest := takeList(rest)
+	shorts, rest := takeList(rest)
 	words, rest := takeList(rest)
 	cur := rest[0]
 	def := &cmdDef{name: "root", interspersed: il}
 	for i, n := range names {
-		def.flags = append(def.flags, flagDef{name: n, kind: kinds[i]})
+		def.flags = append(def.flags, flagDef{name: n, kind: kinds[i], short: shorts[i]})
 	}
 	out := slotRunDef(def, words, cur)
 	if out[0] != "ok" {
